@@ -27,8 +27,8 @@ ProcessedOK(mediaOK, processed) == mediaOK \subseteq processed
 \* an MPD is the SET of its adaptation sets, each with the SET of its representations.
 NormAS(a) == [ct |-> a.ct, lang |-> a.lang, mime |-> a.mime, ts |-> a.ts, roles |-> Range(a.roles), reps |-> Range(a.reps)]
 NormMPD(m) == {NormAS(m[i]) : i \in DOMAIN m}
-\* no adaptation set / representation may get lost by the normalisation (duplicates are a difference)
-Shape(m) == <<Len(m), [i \in DOMAIN m |-> Len(m[i].reps)]>>
+\* duplicates must not get lost by the normalisation: the numbers of AdaptationSets and Representations are part
+\* of the outcome
 Outcome(files, hasmpd, m) == [files |-> Range(files), hasmpd |-> hasmpd, mpd |-> NormMPD(m),
                               nas |-> Len(m), nreps |-> Cardinality(UNION {Range(m[i].reps) : i \in DOMAIN m}),
                               nrepsRaw |-> LET RECURSIVE Sum(_) Sum(i) == IF i = 0 THEN 0 ELSE Len(m[i].reps) + Sum(i - 1) IN Sum(Len(m))]
